@@ -224,6 +224,20 @@ func propC01(c c01Case) (ev.Outcome, error) {
 	}
 
 	got := sortedCalls(out.Calls)
+	if len(exp.Optional) > 0 {
+		opt := map[walkmodel.Extraction]bool{}
+		for _, e := range exp.Optional {
+			opt[e] = true
+		}
+		kept := got[:0:0]
+		for _, g := range got {
+			if !opt[g] {
+				kept = append(kept, g)
+			}
+		}
+		got = kept
+		o.Classes = append(o.Classes, "symlink_path_matches_dir_skip_rule")
+	}
 	if len(exp.DontCare) > 0 {
 		o.Classes = append(o.Classes, "dont_care")
 		for _, r := range exp.DontCare {
